@@ -265,7 +265,9 @@ func (w *world) record(tr *vh.Trace, name string, p *pkt, outs []outJ, emitted [
 
 func resetMeta(w *world, src string, base uint32, calm int) map[string]any {
 	return map[string]any{"ed": w.ed, "ep": w.ep, "dd": w.dd, "dp": w.dp, "src": src, "start": int64(int32(w.start - base)), "calm": calm,
-		"nearwrap": w.start != 0} // positioned runs: relative ids are not congruent modulo every group size -> judged by FecObs only
+		// positioned runs: relative ids are not congruent modulo every group size -> judged by FecObs only; so are runs with very large
+		// groups (the conformance specification sorts the 258-sample window at every packet while the decoder is tuning)
+		"nearwrap": w.start != 0 || w.ed+w.ep > 64 || w.dd+w.dp > 64}
 }
 
 func readBehaviours(path string) ([]fBeh, error) {
@@ -510,6 +512,13 @@ func TestFecMismatch(t *testing.T) {
 		s2 := 2 + rng.Intn(254)
 		dd := 1 + rng.Intn(s2-1)
 		pairs = append(pairs, pair{ed, s - ed, dd, s2 - dd})
+	}
+	// boundary: the largest group the decoder is willing to adopt (d+p = 255, the bound of the property) and its neighbour
+	// (not groups with very few data packets: every data packet then drags hundreds of parity packets along)
+	for i, b := range []pair{{128, 127, 10, 3}, {254, 1, 1, 1}, {200, 55, 3, 2}, {253, 1, 1, 1}, {127, 127, 10, 3}, {1, 1, 254, 1}, {10, 3, 128, 127}, {60, 195, 2, 1}} {
+		if i < vh.EnvInt("FEC_BOUNDARY_PAIRS", 2) {
+			pairs = append(pairs, b)
+		}
 	}
 	for pi, pr := range pairs {
 		synctest.Test(t, func(t *testing.T) {
